@@ -227,6 +227,17 @@ Theorem server_side_codes : forall (D : Type) (q : request D) x,
   spec_server q = Some x -> server_guard q = true -> meets (server_reply current_table q) x.
 Proof. intros. apply server_side_generic; [exact server_classes_ok_current|assumption|assumption]. Qed.
 
+(* a session of requests on one connection: the replies are, in order, the replies to each
+   request alone (session_replies_map), hence each meets the reference *)
+Theorem C07_session : forall (D : Type) (qs : list (request D)),
+  session_replies current_table qs = map (server_reply current_table) qs /\
+  (Forall (fun q => server_guard q = true) qs ->
+   Forall2 (fun r q => exists x, spec_server q = Some x /\ meets r x) (session_replies current_table qs) qs).
+Proof.
+  intros D qs. split; [apply session_replies_map|].
+  apply session_meets. exact server_classes_ok_current.
+Qed.
+
 (* ---- non-vacuity ---- *)
 
 (* a different iteration order exists, and the hypotheses of the identity clause are met *)
